@@ -31,9 +31,13 @@ def active(profile, s):
     return [b for b, d in enumerate(profile) if d > s]
 
 
+STRIDE = 12     # ids per branch; generators of many-step programs (<= 3 branches, <= 12 steps) set it to 24 while they build such a program
+
+
 def E(b, s, k=0):
-    """event id of callback k of (branch b, step s); branches < 12, steps < 6, k < 2"""
-    return 1 + b * 12 + s * 2 + k
+    """event id of callback k of (branch b, step s); branches < 12, steps < 6 (STRIDE 12) or branches < 4, steps < 12 (STRIDE 24), k < 2"""
+    assert s * 2 + k < STRIDE, "event ids of neighbouring branches would collide"
+    return 1 + b * STRIDE + s * 2 + k
 
 
 def o(b, s):
